@@ -1,3 +1,259 @@
-"""fold-form loop rule and sequence combinators (filled in below)"""
-INTRINSICS = {}
-loop_handler = None
+"""Unbounded lists: sequence combinators over opaque sequences and the fold-form loop rule.
+
+Loop rule (trusted logic of the verifier, as the while-rule is in any Hoare-logic tool):
+for `for x in xs: body` with xs an opaque sequence and a sidecar invariant
+    inv(case, pre, rest, entry) -> {expr: value}
+giving the value of every location the loop modifies as a function of the processed prefix
+`pre` (original elements), the unprocessed `rest` and the loop-entry values, the engine checks
+  (base)  the current state equals inv(pre=[], rest=xs, entry)
+  (step)  from the state inv(pre=P, rest=[x]+R) with P, R fresh opaque sequences and x a generic
+          element, one execution of the body yields inv(pre=P+[x_old], rest=R); nothing else
+          reachable from the local variables changes; the body neither breaks nor returns
+and continues after the loop with inv(pre=xs, rest=[]).
+"""
+import ast
+
+import z3
+
+from .interp import BreakEx, ContinueEx, EnumOSeq, Env, ReturnEx
+from .values import Closure, Infeasible, OSeq, PyRaise, SBool, Unsupported, is_sym
+from .program import FuncRef
+
+
+class LoopObligation(Exception):
+    """terminates the current path with a loop obligation as its goal"""
+
+    def __init__(self, kind, goal, detail=None):
+        self.kind, self.goal, self.detail = kind, goal, detail
+
+
+def _free_vars(node):
+    params = {a.arg for a in node.args.args} if hasattr(node, "args") else set()
+    names = []
+    body = node.body if isinstance(node.body, list) else [node.body]
+    for b in body:
+        for n in ast.walk(b):
+            if isinstance(n, ast.Name) and n.id not in params and n.id not in names:
+                names.append(n.id)
+    return names
+
+
+def fkey(I, f):
+    if isinstance(f, FuncRef):
+        return f.key
+    if isinstance(f, Closure):
+        vals = []
+        for n in _free_vars(f.node):
+            found, v = f.env.lookup(n) if f.env is not None else (False, None)
+            if not found:
+                continue
+            if is_sym(v):
+                vals.append("%s=%s" % (n, v.t.sexpr()))
+            elif isinstance(v, (str, int, bool, type(None), tuple)):
+                vals.append("%s=%r" % (n, v))
+            else:
+                vals.append("%s@%d" % (n, id(v)))
+        k = "%s:%d:%d{%s}" % (f.module, f.node.lineno, f.node.col_offset, ",".join(vals))
+        I.__dict__.setdefault("fkeys", {})[k] = f
+        return k
+    raise Unsupported("sequence combinator over %r" % (f,))
+
+
+def _segs(I, xs):
+    if isinstance(xs, OSeq):
+        return xs.segs
+    return [("i", x) for x in I.iter_values(xs)]
+
+
+def i_seq_map(I, args, kwargs):
+    f, xs = args
+    out = []
+    for kind, v in _segs(I, xs):
+        if kind == "i":
+            out.append(("i", I.call(f, [v])))
+        else:
+            out.append(("o", ("map", fkey(I, f), v)))
+    return _mk(out)
+
+
+def i_seq_filter(I, args, kwargs):
+    f, xs = args
+    out = []
+    for kind, v in _segs(I, xs):
+        if kind == "i":
+            if I.truth(I.call(f, [v])):
+                out.append(("i", v))
+        else:
+            out.append(("o", ("filter", fkey(I, f), v)))
+    return _mk(out)
+
+
+def i_seq_flatmap(I, args, kwargs):
+    f, xs = args
+    out = []
+    for kind, v in _segs(I, xs):
+        if kind == "i":
+            out.extend(_segs(I, I.call(f, [v])))
+        else:
+            out.append(("o", ("flat", fkey(I, f), v)))
+    return _mk(out)
+
+
+def _mk(segs):
+    if all(k == "i" for k, _ in segs):
+        return [v for _, v in segs]
+    return OSeq(segs)
+
+
+INTRINSICS = {"seq_map": i_seq_map, "seq_filter": i_seq_filter, "seq_flatmap": i_seq_flatmap}
+
+
+# ------------------------------------------------------------------ loop rule
+
+def _for_ordinal(fnode, node):
+    fors = sorted((n for n in ast.walk(fnode) if isinstance(n, ast.For)), key=lambda n: (n.lineno, n.col_offset))
+    for i, n in enumerate(fors):
+        if n is node:
+            return i
+    return -1
+
+
+def _eval_expr(I, expr, env):
+    return I.ev(ast.parse(expr, mode="eval").body, env)
+
+
+def _assign_expr(I, expr, value, env):
+    t = ast.parse(expr + " = 0").body[0].targets[0]
+    I.assign(t, value, env)
+
+
+def elem_of(I, term, name):
+    """generic element of an opaque sequence term"""
+    G = I.G
+    if term[0] == "base":
+        b = G.elem_builders.get(term[1])
+        if b is None:
+            raise Unsupported("no element schema for opaque sequence %s" % term[1])
+        return b(G, name)
+    if term[0] == "map":
+        return I.call(I.fkeys[term[1]], [elem_of(I, term[2], name)])
+    if term[0] == "filter":
+        x = elem_of(I, term[2], name)
+        if not I.truth(I.call(I.fkeys[term[1]], [x])):
+            raise Infeasible()
+        return x
+    raise Unsupported("generic element of %r" % (term,))
+
+
+def loop_handler(I, node, it, env):
+    enum = None
+    if isinstance(it, EnumOSeq):
+        enum, it = it, it.seq
+    if not (isinstance(it, OSeq) and any(k == "o" for k, _ in it.segs)):
+        return NotImplemented
+    fref = env.fref
+    if fref is None:
+        raise Unsupported("loop over opaque sequence outside a function")
+    ordinal = _for_ordinal(fref.node, node)
+    spec = I.loop_specs.get((fref.key, ordinal))
+    if spec is None:
+        raise Unsupported("loop over opaque sequence without invariant: %s loop %d (line %d)" % (fref.key, ordinal, node.lineno))
+    if len(it.segs) != 1:
+        raise Unsupported("loop over a sequence with explicit items and an opaque part")
+    if node.orelse:
+        raise Unsupported("for/else over opaque sequence")
+    C, inv_ref, temps = spec["contract"], spec["inv"], spec.get("temps", ())
+    term = it.segs[0][1]
+    I.loop_counter = getattr(I, "loop_counter", 0) + 1
+    tag = "%s.%d#%d" % (fref.node.name, ordinal, I.loop_counter)
+
+    def inv(pre, rest, entry):
+        r = I.call_ref(inv_ref, [C.case, pre, rest, entry], {}, top=True)
+        if not isinstance(r, dict):
+            raise Unsupported("loop invariant must return a dict")
+        return r
+
+    # loop-entry values of the declared locations
+    probe = inv([], it, {})
+    entry = {}
+    for expr in probe:
+        try:
+            entry[expr] = _eval_expr(I, expr, env)
+        except (PyRaise, Unsupported):
+            entry[expr] = None
+    which = I.ctx.choose(3, "loop:" + tag)
+    if which == 0:
+        # (base)
+        s0 = inv([], it, entry)
+        goals = []
+        for expr, v in s0.items():
+            goals.append(I.eq(entry[expr], v) if entry[expr] is not None or v is None else False)
+        raise LoopObligation("loop-base:" + tag, I.and_all(goals), dict(entry={k: repr(v)[:200] for k, v in entry.items()}))
+    if which == 1:
+        # (step)
+        P, R = ("base", "pre:" + tag), ("base", "rest:" + tag)
+        for t_ in (P, R):
+            I.ctx.assume(I.seq_len_term(t_) >= 0)
+        I.G.elem_builders[P[1]] = lambda G, name, _t=term: elem_of(I, _t, name)
+        I.G.elem_builders[R[1]] = I.G.elem_builders[P[1]]
+        x = elem_of(I, term, "x:" + tag)
+        x_old = I.deepcopy(x, {})
+        state = inv(OSeq([("o", P)]), OSeq([("i", x), ("o", R)]), entry)
+        for expr, v in state.items():
+            _assign_expr(I, expr, v, env)
+        for tname in temps:
+            env.vars.pop(tname, None)
+        declared = set(state) | set(temps)
+        others = {k: v for k, v in env.vars.items() if k not in declared and not _is_target(node.target, k)}
+        snap_memo = {}
+        snapshot = {k: I.deepcopy(v, snap_memo) for k, v in others.items()}
+        # locations described by the invariant may legitimately change inside `others` (e.g. self.columns):
+        if enum is not None:
+            idx = I.b_len(OSeq([("o", P)]))
+            I.assign(node.target, (I.binop(ast.Add(), idx, enum.start) if enum.start else idx, x), env)
+        else:
+            I.assign(node.target, x, env)
+        try:
+            I.exec_block(node.body, env)
+        except ContinueEx:
+            pass
+        except BreakEx:
+            raise LoopObligation("loop-step:" + tag, False, "break inside a loop handled by the fold rule")
+        except ReturnEx:
+            raise LoopObligation("loop-step:" + tag, False, "return inside a loop handled by the fold rule")
+        expected = inv(OSeq([("o", P), ("i", x_old)]), OSeq([("o", R)]), entry)
+        goals, detail = [], {}
+        from .engine import describe, state_eq
+        for expr, v in expected.items():
+            cur = _eval_expr(I, expr, env)
+            g = state_eq(I, cur, v)
+            goals.append(g)
+            if g is not True:
+                detail[expr] = dict(after_body=describe(cur), invariant=describe(v))
+        # frame: everything else reachable from the locals is unchanged, except through declared locations
+        for expr, v in expected.items():
+            _assign_expr(I, expr, None, env) if "." in expr or "[" in expr else None
+        for expr, v in state.items():
+            if "." in expr or "[" in expr:
+                # neutralise the declared heap location in the snapshot as well
+                try:
+                    senv = Env(env.module, None, env.fref)
+                    senv.vars = snapshot
+                    _assign_expr(I, expr, None, senv)
+                except (PyRaise, Unsupported, KeyError):
+                    pass
+        for k, v in others.items():
+            g = state_eq(I, v, snapshot[k])
+            goals.append(g)
+            if g is not True:
+                detail["frame:" + k] = dict(after_body=describe(v), before=describe(snapshot[k]))
+        raise LoopObligation("loop-step:" + tag, I.and_all(goals), detail)
+    # (exit) continue after the loop with the invariant at pre = whole sequence
+    final = inv(it, [], entry)
+    for expr, v in final.items():
+        _assign_expr(I, expr, v, env)
+    return True
+
+
+def _is_target(t, name):
+    return any(isinstance(n, ast.Name) and n.id == name for n in ast.walk(t))
